@@ -1184,6 +1184,28 @@ func jobC06(c *rt.Ctx) {
 			c.Violation("C06 level-huge", fmt.Sprintf("VerifyBatch of %d entries (nil entries, then %d real ones): err=%v all=%v, the last %d entries reported %s, single verification says %v", hn, tail, err, all, tail, got, want), map[string]interface{}{"n": hn})
 		}
 	}
+	// level two-defects: ONE entry that is bad in two ways at once - a signature kind (S + L, S bit flip, R
+	// bit flip, short signature, small-order / undecodable R) together with a key kind (31 bytes, nil,
+	// undecodable, small order, bit flip) - in a batch of 5 and in the second chunk of 70
+	c.Require("level-two-defects")
+	sigKinds := []string{"S+L", "S-bitflip", "R-bitflip", "sig63", "sig-nil", "small-order-R", "undecodable-R"}
+	keyKinds := []string{"key31", "key-nil", "undecodable-key", "small-order-key", "key-bitflip"}
+	for si, sk := range sigKinds {
+		for ki, kk := range keyKinds {
+			for _, shp := range [][2]int{{5, 2}, {70, 66}} {
+				if !c.Take() {
+					continue
+				}
+				o := opts[(si+ki+shp[0])%len(opts)]
+				es, ks := build(shp[0], nil, o.vs)
+				a, b := mkEntry(sk, shp[1], o.vs), mkEntry(kk, shp[1], o.vs)
+				es[shp[1]], ks[shp[1]] = triple{b.key, a.msg, a.sig}, sk+"+"+kk
+				c.Class("level-two-defects")
+				c.Distinct(fmt.Sprintf("twodef %d %d %d", si, ki, shp[0]), true)
+				checkBatch(c, "level-two-defects", es, ks, o.vs, o.zip, (si+ki)%2, fmt.Sprintf("td-%d-%d", si, ki))
+			}
+		}
+	}
 	// level compensating: TWO bad entries whose errors cancel in the batch equation if their randomisers
 	// coincide (or one is a fixed multiple of the other): scalar halves S_i + d and S_j - d; and three
 	// entries S_i + d, S_j + d, S_k - 2d. Every pair of positions in small batches, neighbouring pairs
